@@ -52,7 +52,7 @@ class C17(Check):
     ASSUMPTIONS = ['lone surrogates are not text and are not generated',
                    'stdlib one-shot codecs are the reference for the meaning of the bytes']
     ANCHORS = ['rxsci/data/codec.py']
-    REQUIRED_TAGS = ENCODINGS + ['cut-in-char', 'empties', 'empty-string', 'astral', 'empty-list']
+    REQUIRED_TAGS = ENCODINGS + ['cut-in-char', 'empties', 'empty-string', 'astral', 'empty-list', 'string>64Ki']
 
     _ops = {}
 
@@ -109,6 +109,15 @@ class C17(Check):
                     yield self._mk(enc, strs, (a,))
         for k in range(nrand):
             enc = rng.choice(ENCODINGS)
+            if k % 250 == 125:
+                # scale: single strings beyond 65536 characters (block-wise encoders), not first and first in the stream
+                enc = ENCODINGS[(k // 250) % 4]
+                a = ALPHA['latin' if enc == 'latin-1' else rng.choice(['bmp', 'astral', 'ascii'])]
+                big = ''.join(rng.choice(a) for _ in range(997)) * rng.choice([67, 140])
+                strs = [['x', big, 'y', '', big[:5]], [big, 'tail'], ['', big]][(k // 1000) % 3]
+                ln = len(''.join(strs).encode(enc))
+                yield self._mk(enc, strs, sorted(set(rng.randrange(1, ln) for _ in range(6))), empties=rng.random() < 0.5)
+                continue
             strs = self._rand_strs(rng, enc)
             ln = len(''.join(strs).encode(enc))
             yield self._mk(enc, strs, chunking.random_cuts(rng, ln, rng.choice([1, 3, 10, 50])),
@@ -126,6 +135,8 @@ class C17(Check):
             out.tags.append('empty-string')
         if any(ord(c) > 0xffff for c in text):
             out.tags.append('astral')
+        if any(len(x) > 65536 for x in strs):
+            out.tags.append('string>64Ki')
 
         # operator objects are built once per encoding and re-subscribed for every case: codec state must
         # belong to the subscription, not to the operator (BOM written once PER STREAM, no bytes carried over)
